@@ -53,7 +53,17 @@ func paramsKey(p wire.Params) string {
 // libConn attaches a library connection of the given role to one end of a
 // fresh transport pair and returns it with the other (peer) end.
 func libConn(role Role, p wire.Params, threshold int, lib2peer, peer2lib xport.Plan) (*websocket.Conn, *xport.End, *xport.End, error) {
+	return libConnEarly(role, p, threshold, lib2peer, peer2lib, nil)
+}
+
+// libConnEarly is libConn with bytes that the peer has sent before the handshake completes on the library's
+// side: they are waiting in the transport (client role) or in the hijacked connection's read buffer (server
+// role, as with net/http) when the Conn is created.
+func libConnEarly(role Role, p wire.Params, threshold int, lib2peer, peer2lib xport.Plan, early []byte) (*websocket.Conn, *xport.End, *xport.End, error) {
 	libEnd, peerEnd := xport.Pair(lib2peer, peer2lib)
+	if len(early) > 0 {
+		peerEnd.Write(early)
+	}
 	var c *websocket.Conn
 	var err error
 	if role == RoleClient {
@@ -61,7 +71,7 @@ func libConn(role Role, p wire.Params, threshold int, lib2peer, peer2lib xport.P
 		defer cancel()
 		c, err = attach.Client(ctx, libEnd, attach.ClientOpts{Params: p, Threshold: threshold})
 	} else {
-		c, _, err = attach.Server(libEnd, attach.ServerOpts{Params: p, Threshold: threshold})
+		c, _, err = attach.Server(libEnd, attach.ServerOpts{Params: p, Threshold: threshold, Prefill: len(early) > 0})
 	}
 	if err != nil {
 		return nil, nil, nil, fmt.Errorf("attach %s %v: %w", role, p, err)
